@@ -318,6 +318,8 @@ fn hostile(rng: &mut Rng) -> String {
             2 => (ihl as u16 * 4).wrapping_add(plen as u16).wrapping_add(rng.below(9) as u16),
             _ => ihl as u16 * 4 + plen as u16,
         };
+        // total_length - ihl*4 + 7 beyond u16 (panic site 2) needs a header shorter than 8 octets
+        let (ihl, tl) = if rng.coin(1, 16) { *rng.pick(&[(0u8, 65535u16), (1, 65535), (0, 65529), (0, 65528), (1, 65533), (1, 65532)]) } else { (ihl, tl) };
         let flags = match rng.below(6) { 0 => rng.below(8) as u8, 1 => 0, 2 => 2, 3 => 3, _ => 1 };
         let id = rng.below(2) as u16;
         let ttl = *rng.pick(&TTLS);
